@@ -10,7 +10,7 @@ import common
 
 ENGINE = {"C01": "eng_eval", "C02": "eng_eval", "C14": "eng_eval", "C17": "eng_eval",
           "C03": "eng_diff", "C04": "eng_diff", "C07": "eng_diff",
-          "C08": "eng_reduce", "C11": "eng_reduce"}
+          "C08": "eng_reduce", "C11": "eng_reduce", "C05": "eng_sym"}
 
 
 def main(argv):
